@@ -2646,12 +2646,66 @@ func writeBodyFixedSize(w *bufio.Writer, r io.Reader, size int64) error {
 		}
 	}
 
-	n, err := copyBodyStream(w, r)
+	lw := limitedBodyWriter{w: w, n: size}
+	n, err := copyBodyStream(&lw, r)
 
 	if n != size && err == nil {
 		err = fmt.Errorf("copied %d bytes from body stream instead of %d bytes", n, size)
 	}
 	return err
+}
+
+var errBodyStreamTooLong = errors.New("body stream yields more bytes than the declared body size")
+
+// limitedBodyWriter forwards at most n bytes to w and fails on the first byte
+// beyond them, so a body stream yielding more than the announced
+// Content-Length cannot corrupt the framing of the connection.
+//
+// It implements io.ReaderFrom in order to keep the bufio.Writer.ReadFrom
+// (sendfile) fast path.
+type limitedBodyWriter struct {
+	w *bufio.Writer
+	n int64
+}
+
+func (lw *limitedBodyWriter) Write(p []byte) (int, error) {
+	if int64(len(p)) > lw.n {
+		nn, err := lw.w.Write(p[:lw.n])
+		lw.n -= int64(nn)
+		if err == nil {
+			err = errBodyStreamTooLong
+		}
+		return nn, err
+	}
+	nn, err := lw.w.Write(p)
+	lw.n -= int64(nn)
+	return nn, err
+}
+
+func (lw *limitedBodyWriter) ReadFrom(r io.Reader) (int64, error) {
+	src := r
+	if lr, ok := r.(*io.LimitedReader); !ok || lr.N > lw.n {
+		src = &io.LimitedReader{R: r, N: lw.n}
+	}
+	n, err := lw.w.ReadFrom(src)
+	lw.n -= n
+	if err != nil || lw.n > 0 {
+		return n, err
+	}
+	// The declared size has been copied; the stream must be at EOF now.
+	var probe [1]byte
+	for {
+		nn, err := r.Read(probe[:])
+		if nn > 0 {
+			return n, errBodyStreamTooLong
+		}
+		if err != nil {
+			if err == io.EOF {
+				err = nil
+			}
+			return n, err
+		}
+	}
 }
 
 func copyBodyStream(w io.Writer, r io.Reader) (int64, error) {
